@@ -20,14 +20,14 @@ class IdAlloc:
         return self.pool.pop(0)
 
 
-def _warp(rng, curved, far=0.0):
+def _warp(rng, curved, far=0.0, far_range=(800.0, 5000.0)):
     """A smooth injective map of the plane used to bend the grid; shared boundary points stay shared."""
     a = rng.uniform(0.5, 2.5) if curved else 0.0
     b = rng.uniform(12.0, 30.0)
     th = rng.uniform(-math.pi, math.pi) if rng.chance(0.7) else 0.0
     tx, ty = rng.uniform(-30, 30), rng.uniform(-30, 30)
     if far > 0.0 and rng.chance(far):
-        tx, ty = tx + rng.choice([-1, 1]) * rng.uniform(800, 5000), ty + rng.choice([-1, 1]) * rng.uniform(800, 5000)
+        tx, ty = tx + rng.choice([-1, 1]) * rng.uniform(*far_range), ty + rng.choice([-1, 1]) * rng.uniform(*far_range)
     c, s = math.cos(th), math.sin(th)
 
     def f(x, y):
@@ -39,7 +39,7 @@ def _warp(rng, curved, far=0.0):
 
 def gen_network(rng, rows=None, cols=None, ids=None, curved=None, signs=True, lights=True, intersections=True,
                 overlap=None, stop_lines=True, opposite=True, n_pts=None, types=True, extra_links=True, far=0.0,
-                lattice=False):
+                lattice=False, far_range=(800.0, 5000.0)):
     """Grid of lanelets: row r+1 lies to the left of row r; lanelets of one row are chained.
 
     lattice=True: an unwarped, axis-parallel grid whose coordinates are small multiples of 1/2, so that all
@@ -58,7 +58,7 @@ def gen_network(rng, rows=None, cols=None, ids=None, curved=None, signs=True, li
         n_pts = rng.choice([2, 3, 5])
         overlap = False
     else:
-        warp = _warp(rng, curved, far)
+        warp = _warp(rng, curved, far, far_range)
         L = rng.uniform(8.0, 16.0)
         W = rng.uniform(2.5, 4.5)
         n_pts = n_pts or rng.randint(2, 5)
